@@ -126,7 +126,7 @@ def dumpBase {L : Type} [Inhabited L] (und : Bool) (g : G L) : List String :=
       showRes showBool (if und then g.uHasEdge i j else g.dHasEdge i j))))
   let es := if und then g.uEdges else g.dEdges
   let be := showBool (g.itBegin == g.itEnd)
-  nbs ++ has ++ [s!"E pre: {showEdges es} | post: {showEdges es} | be={be}", s!"V pre: {joinNat g.vertices} | post: {joinNat g.vertices}"]
+  nbs ++ has ++ [s!"E pre: {showEdges es} | post: {showEdges es} | be={be} | two: {showEdges es} | be2={be}", s!"V pre: {joinNat g.vertices} | post: {joinNat g.vertices}"]
 
 def dumpLabels (und : Bool) (g : G Int) : List String :=
   if !g.labelled then [] else
@@ -491,7 +491,7 @@ def step (quiet : Bool) (ss : Slots) (line : String) : Slots × List String :=
       | none => (ss, [bad])
     | _, _ => (ss, [bad])
   | [verb, a, b] =>
-    if verb == "copy" || verb == "assign" || verb == "reversed" || verb == "todirected" || verb == "ofdirected" then
+    if verb == "copy" || verb == "assign" || verb == "movecopy" || verb == "moveassign" || verb == "reversed" || verb == "todirected" || verb == "ofdirected" then
       match nat? a, nat? b with
       | some a, some b =>
         let src := getSlot ss a
@@ -500,6 +500,11 @@ def step (quiet : Bool) (ss : Slots) (line : String) : Slots × List String :=
           | "copy", x => some (x, "ok")
           | "assign", .empty => none
           | "assign", x => some (x, "ok")
+          -- move construction / move assignment from a temporary copy: the same value
+          | "movecopy", .empty => none
+          | "movecopy", x => some (x, "ok")
+          | "moveassign", .empty => none
+          | "moveassign", x => some (x, "ok")
           | "reversed", .gr false g => some (ofRes g.dReversed (Slot.gr false))
           | "todirected", .gr true g => some (ofRes g.uGetDirectedGraph (Slot.gr false))
           | "ofdirected", .gr false g => some (ofRes g.uOfDirected (Slot.gr true))
